@@ -24,10 +24,7 @@ def _answer_calls(fn):
 
 def clause_a(ctx, P):
     fn = P.one("Zeroconf::handle_query")
-    idx = None
-    for l in range(1, fn.argc + 1):
-        if fn.locals[l].get("name") == "if_index":
-            idx = l
+    idx = param_index(fn, "if_index", "u32")
     ctx.require(idx is not None, "C06a.anchor", fn.name, fn.loc(), "parameter if_index found")
     tr = tracer(P, fn)
     guards = status_guard_edges(P, fn, idx)
